@@ -88,13 +88,13 @@ Definition c16_run (t : tree) : tree :=
   end.
 
 (* ------------------------------------------------------------------ the verified checker *)
-(* the count the property demands: brute force where feasible (n <= 7), the independent
-   exponential-formula recurrence above that *)
-Definition count_spec (n : nat) (k : Z) : Z :=
+(* the count the property demands: brute force where feasible (n <= bmax <= 7, [bmax] chosen by the
+   caller: 6 in the quick tier), the independent exponential-formula recurrence above that *)
+Definition count_spec (bmax : nat) (n : nat) (k : Z) : Z :=
   if (k <? 0) then 0
-  else if (n <=? 7)%nat then brute n (Z.to_nat k) else cross n k.
+  else if (n <=? Nat.min bmax 7)%nat then brute n (Z.to_nat k) else cross n k.
 
-Definition check_count (n : nat) (k r : Z) : bool := r =? count_spec n k.
+Definition check_count (bmax : nat) (n : nat) (k r : Z) : bool := r =? count_spec bmax n k.
 
 Definition check_ncg (nodes : list nat) (edges : list edge) (ak : list nat) (i : nat) (k r : Z) : bool :=
   let vs := induced_vs nodes ak i in
@@ -107,7 +107,7 @@ Definition check_clique (tau : nat) (phi : pe) (Hs : list pe) (d : Z) (impl : pe
 Definition check_cycle (n : nat) (u phi : pe) (d : Z) (impl : pe) : bool :=
   peq impl (pmul (pc d) (cycle_spec n u phi)).
 
-(* c16_check: (0 n k r) | (1 n k r) | (2 nodes edges ak i k r) | (3 tau phi Hs d impl) | (4 n u phi d impl)
+(* c16_check: (0 n k r bmax) | (1 n k r bmax) | (2 nodes edges ak i k r) | (3 tau phi Hs d impl) | (4 n u phi d impl)
    answers 1 = the property holds on this observation, 0 = it does not, 2 = outside the property's domain *)
 Definition c16_check (t : tree) : tree :=
   let a := t_nth 1 t in let b := t_nth 2 t in
@@ -115,7 +115,7 @@ Definition c16_check (t : tree) : tree :=
   | 0 | 1 =>
       let n := t_nat a in let k := t_z b in
       if (t_z a <? 1) || (k <? 0) || (tri (t_z a) <? k) then I 2
-      else of_bool (check_count n k (t_z (t_nth 3 t)))
+      else of_bool (check_count (t_nat (t_nth 4 t)) n k (t_z (t_nth 3 t)))
   | 2 =>
       let k := t_z (t_nth 5 t) in
       if k <? 0 then I 2
